@@ -1,7 +1,8 @@
 #!/usr/bin/env python3
 """print the prompt for a HARMLESS-refactoring sub-agent (false-alarm drill): property texts only, nothing from /verif."""
-import json, sys
+import json, os, sys
 pids = sys.argv[1:]
+H0 = int(os.environ.get("H_START", "1"))   # first index: h<H0>..h<H0+2>
 wt = "/tmp/wt_h_" + "_".join(pids)
 props = {json.loads(l)['id']: json.loads(l) for l in open('/verif/properties.jsonl')}
 blocks = []
@@ -25,7 +26,7 @@ TASK: for EACH property above produce THREE independent, realistic, BEHAVIOUR-PR
 Each change, taken alone, must (a) import and pass the full test suite (run it!), (b) keep the property true, and — stronger — (c) preserve the observable behaviour of every PUBLIC function, method and attribute of the touched classes on ALL inputs and histories: same return values (including the exact text of result/error messages and the type of raised exceptions), same exceptions, same order and arguments of every user-callback invocation, same values of public attributes after every call, same locking behaviour (which locks are taken in which order around which accesses), same console output when not silent. Do not fix bugs, do not change defaults, do not change rounding. Keep each patch between roughly 10 and 80 changed lines, and make it a REAL restructuring, not whitespace or comments only.
 For each change also write demo.py: a standalone program that exercises the property's clauses on your copy over a reasonable spread of inputs/histories (including the unusual ones the QUANTIFIED OVER text mentions) and exits 0 if the property held, 1 otherwise; it must exit 0 both WITHOUT and WITH your change. Additionally compare old and new behaviour differentially where you can (e.g. run the same random histories against a pristine copy of the original code — `git archive HEAD | tar -x -C <dir>`, NEVER `git stash`, which is shared between worktrees — in a subprocess and compare printed transcripts) and say in meta.json what you compared.
 
-DELIVERABLE, for each property id P and i = 1, 2, 3 (kind (i)), in /tmp/seed_out/P/h<i>/ :
+DELIVERABLE, for each property id P and i = 1, 2, 3 (kind (i)), in /tmp/seed_out/P/h<i+{H0-1}>/ (that is h{H0}, h{H0+1}, h{H0+2}) :
   - patch.diff   (`git -C {wt} diff` of that change alone, relative to the unmodified worktree HEAD; must apply with `git apply` to a clean checkout)
   - demo.py      (takes no arguments; imports operon_ai from PYTHONPATH; exit 0 = property held)
   - meta.json    {{"property": "P", "kind": "harmless-refactor", "summary": "...what was changed...", "why_behaviour_preserving": "...", "verified": "...exact commands you ran and their results (suite pass count with the patch, demo exit codes with and without the patch, differential comparison)..."}}
